@@ -23,6 +23,39 @@ CLAIMED = {
             "16 hex digits little-endian, algorithm dispatch incl. Java names and ValueError for unknown names. Tie: Srcfacts (seed, names, "
             "mapping regenerated from source) + correspondence on all 1-byte texts, 2-byte texts, random Unicode texts and every algorithm name.",
             "digest functions are hashlib's (Section variable in the model); str.encode is the stdlib's.", "§3 C14"),
+    "C01": ("Rocq proof: reader(writer(a) ++ suffix) = (a, suffix) for every schema/typed value/suffix by height induction; streams by list induction; correspondence model vs schemaless_writer/reader + independent Python round-trip predicate",
+            "Theorems (coq/props/C01.v): zig-zag/varint round trip on all int64; wire_dec: for every schema (all constructs, by-name and recursive references), "
+            "every typed wire value and every suffix the decoder returns exactly the value and the suffix; the schemaless reader/writer corollary through the "
+            "elaboration elab and py_of; values written back to back are read one by one. Tie: the model's write/read are evaluated on every generated "
+            "(schema, datum, suffix) and compared with fastavro's bytes, value and stream position; the statement itself (independent conformance + "
+            "normalisation predicate) is evaluated on the implementation for every case.",
+            "float leaves: SpecFloat.binary_round validated bit-exactly against struct.pack; elab_typed (elab output is well typed) is validated per case, proved in ElabProofs when present.", "§3 C01"),
+    "C02": ("Rocq proof: specification equations of the encoder, varint/zig-zag/little-endian leaf specs, injectivity and decodability; byte-for-byte correspondence incl. leaf encoders on exhaustive boundary families",
+            "Theorems (coq/props/C02.v): zig-zag closed form, base-128 digit characterisation (continuation bits, minimal length), little-endian fixed width, "
+            "the 15 structural equations of the spec (one counted block + terminator, record = concatenation, union = index then value, byte-length prefixes), "
+            "wire is injective on typed values and decoded by the independent decoder, the writer's layout is the single-block member of all valid layouts. "
+            "Tie: bytes of schemaless_writer and of each BinaryEncoder method vs the model, byte for byte.",
+            "binary32 rounding = SpecFloat.binary_round (stdlib, axiom-free), validated bit-exactly, not re-proved against a real-number spec.", "§3 C02"),
+    "C03": ("Rocq proof: decoder accepts every layout (all block partitions, both count forms, any byte size), skip = forget . dec on all inputs, index-range and truncation theorems; model-produced foreign encodings fed to fastavro",
+            "Theorems (coq/props/C03.v): C03_accepts/C03_skips over all typed layouts; skip_is_dec on all byte strings; bad union/enum index = Err (read and skip); "
+            "extension lemma; no proper prefix of a valid encoding decodes (any fuel); fuel monotonicity. Tie: the model's layout encoder produces multi-block / "
+            "negative-count encodings (all compositions of <=4/6 items exhaustively) that fastavro must decode to the same value, also as a skipped field; every "
+            "out-of-range index kind at every position; every proper prefix of encodings <= 200 bytes.",
+            "", "§3 C03"),
+    "C16": ("Rocq proof over Z of every logical-type conversion on its whole domain (dates, times, timestamps, uuid, decimal two's complement); correspondence + stdlib-oracle sweeps",
+            "Theorems (coq/props/C16.v, 22): date/time/timestamp representations and round trips for every ordinal, every time of day, every instant; two's-complement library; "
+            "decimal bytes/fixed exactness and never-altered theorems (for the repaired prepare_fixed_decimal; refuted witnesses for the old code kept as documentation). "
+            "Tie: prepare_*/read_* and schemaless writer/reader vs the model on boundary grids; the statement itself evaluated on every case; SF_time source facts.",
+            "datetime/decimal/uuid are the stdlib's and enter through a syntactic abstraction validated by sweeps (thorough: all dates, all ms of day).", "§3 C16"),
+    "C17": ("Rocq proof: results of the API step function are independent of any call history (written-before-read invariant), frame theorem; fresh-interpreter vs history differential run + globals snapshots + argument deep-compare; regenerated inventory of mutable state",
+            "Theorems (coq/props/C17.v): history irrelevance for every finite history and call, frame (only the decimal context cells may change; nothing for the repaired code). "
+            "Tie: SF_inventory (every module-level mutable object, mutable default and shared write site regenerated from source), random call histories executed in one "
+            "interpreter vs each call in a fresh interpreter, globals snapshot after every call, arguments deep-compared.",
+            "PARTIAL: the inputs-intact clause and the dependence of results on arguments are decided by the correspondence only (object identity/mutation is not expressible in the pure model).", "§3 C17"),
+    "C18": ("Rocq proof: for threads whose steps write no shared cell every interleaving equals the sequential run (induction over schedules); footprints validated against the code; all interleavings of instrumented points forced on the real code",
+            "Theorems (coq/props/C18.v): C18_interleaving for any number of threads/steps, simulation, footprints soundness, refuted witness for the old shared-context read_decimal. "
+            "Tie: footprint per operation measured on the implementation, forced enumeration of all interleavings at the shared-access points (2-3 threads), stress run.",
+            "PARTIAL: bytecode-level atomicity under the GIL and thread safety of C libraries on distinct objects are assumed (runtime behaviour the model cannot exhibit).", "§3 C18"),
 }
 
 NOT_YET = "check not built yet in this round (model/theorems under construction; see DESIGN.md §12 build order)"
